@@ -15,7 +15,7 @@ import (
 
 func init() {
 	register(&propDef{
-		ID: "C07",
+		ID:          "C07",
 		Explanation: "Five frame/protocol clauses are decided. PAR-ROLE: the parser's zero-results protocol — symbolic paths through parse/Block/getCase/forNud/ifNud/switchNud give, for every parsed child, its grammar slot (counted by the `;`/`case` delimiters consumed before it); SimpleStmt slots (top-level and block statements, for-init, for-post, if-init) must pass through the statement patch (a bare call requests 0 results) and expression slots (conditions, range operands, switch tag, case expressions) must not. HND-LOCALBASE: every access to v.stack in exec is top-relative (len(v.stack)-k) or frame-relative (baseN+operand), never absolute. FRM-ADDR: wherever compile chooses between a local and a global opcode, the opcode and the index come from the same table on every path (path-sensitive symbolic execution). FRM-SLOTS: the slot count in FUNC.B and returned by compiler.run is read from Locals.Cap() after the body was compiled. FRM-PAIR: in mkFunc's closure the previous frame is saved before the switch and restored after exec, the backtrace is pushed before and popped after, BaseN = len(stack)-args is taken before locals are appended, topN-BaseN equals the recorded slot count and the result splice keeps stack[:BaseN]. HND-FIELDS: every operand field a handler reads is set by some emitter of that opcode, and a field is unpacked with splitParams iff every emitter packs it with joinParams. LAY-DEPTH: effect typing of the emitter — handler net effects on len(v.stack) as linear forms over the operands, compile-cases laid out symbolically, child positions typed by the grammar table (value / statement / as-many-as-targets), the net effect of every emitted sequence equals the effect of its node kind on every path, jump source and target depths agree, emitter loops contribute per-iteration effect times trip count, toData leaves one value per literal. PAR-GLOBALIDX, FRM-PARAMSLOT, LAY-EVALORDER, FRM-REDEFINE: see DESIGN.md. Not decided: `return` and the FUNC body (other rules), values.",
 		Assumptions: []string{"grammar slots: for [init; cond; post], if [init; cond], switch [tag] { case exprs: }", "well-typed scripts supply matching value/target counts"},
 		Quick: []ruleDef{
@@ -32,7 +32,7 @@ func init() {
 		},
 	})
 	register(&propDef{
-		ID: "C09",
+		ID:          "C09",
 		Explanation: "Structure of the call protocol. FRM-INVOKE: the field funcT.Value is invoked only in callReady and in newMethod's closure, and every exec handler that calls a script function reaches it through call/callReady, so the argument-count check cannot be bypassed. FRM-CHECKS: in callReady the xArgs != ft.Args check precedes the invocation on every path, and after it fewer results than requested panic and more are truncated to exactly top+xRets (length model). FRM-VARIADIC: in `call` the non-variadic path goes straight to callReady; on the variadic path surplus arguments are copied into a fresh slice, the stack shrinks by exactly that many plus one slot for the slice, and the count handed to callReady is linearly equal to ft.Args. LAY-FUNC: writer/reader agreement on the FUNC block — the compiler emits [FUNC A=join(args,rets) B=slots C=len(block)][one TYPE per argument][one TYPE per result][block]; exec takes codes[N+1 : N+1+|args|+rets+C] and skips the same amount; mkFunc types argument i with tokens[i], result i with tokens[args+i] and runs tokens[args+rets:]; a variadic function is a negative argument count on both sides. FRM-METHOD: newMethod copies the arguments, inserts the receiver below them and invokes the function. REP-TYPEDSTORE (shared with C04): parameters and results are converted with assign to their declared types. Not decided: values at depth, recursion depth.",
 		Assumptions: []string{"splitParams inverts joinParams on 16-bit operands (rule JOINSPLIT of C02)"},
 		Quick: []ruleDef{
@@ -100,8 +100,8 @@ func (c *Ctx) zeroPatchers() map[types.Object]bool {
 
 type roleSlot struct {
 	Fn, Slot string
-	Stmt     bool   // the grammar slot is a SimpleStmt / Statement
-	Patched  bool   // the appended child went through the statement patch
+	Stmt     bool // the grammar slot is a SimpleStmt / Statement
+	Patched  bool // the appended child went through the statement patch
 	Term     string
 	Node     ast.Node
 }
@@ -1091,6 +1091,42 @@ func ruleInsPatch(c *Ctx, r *R) {
 							guarded = true
 						}
 					}
+				}
+				if sel.Sel.Name == "Code" && guarded {
+					// retyping an emitted instruction: only the placeholders BREAK / CONTINUE (which have
+					// no meaning of their own) may become something else. Any other instruction of a
+					// compiled operand is part of an opaque segment — its last instruction need not be
+					// the operand's top-level operation (`!(p && a == b)`)
+					var tested []string
+					child = as
+					for p := c.Parent(as); p != nil && p != ast.Node(fd); child, p = p, c.Parent(p) {
+						switch x := p.(type) {
+						case *ast.IfStmt:
+							if x.Body == child {
+								for _, dj := range disjuncts(x.Cond) {
+									for _, cj := range conjuncts(dj) {
+										if be, ok := unparen(cj).(*ast.BinaryExpr); ok && be.Op == token.EQL && strings.HasSuffix(nosp(c.Src(be.X)), ".Code") {
+											tested = append(tested, nosp(c.Src(be.Y)))
+										}
+									}
+								}
+							}
+						case *ast.CaseClause:
+							if sw, ok := c.Parent(c.Parent(x)).(*ast.SwitchStmt); ok && sw.Tag != nil && strings.HasSuffix(nosp(c.Src(sw.Tag)), ".Code") {
+								for _, e := range x.List {
+									tested = append(tested, nosp(c.Src(e)))
+								}
+							}
+						}
+					}
+					placeholder := len(tested) > 0
+					for _, t := range tested {
+						if t != "codeBreak" && t != "codeContinue" {
+							placeholder = false
+						}
+					}
+					r.check(placeholder, fmt.Sprintf("%s %s.Code placeholder", name, elem), c.Pos(as), "only BREAK/CONTINUE placeholders are retyped",
+						fmt.Sprintf("%s changes the opcode of an already emitted instruction that is not a BREAK/CONTINUE placeholder (tested: %s): the code of a compiled operand is opaque — e.g. flipping a trailing EQ to NEQ for `!x` inverts the right operand of `p && a == b` instead of the whole expression, so !(false && 1 == 1) is false", name, strings.Join(tested, ", ")))
 				}
 				key := fmt.Sprintf("%s %s.%s", name, elem, sel.Sel.Name)
 				r.check(guarded, key, c.Pos(as), "written under a test of the instruction's opcode",
